@@ -117,6 +117,11 @@ def _walker(center, left, right, s):
 def _check_interp(steps, scheme, res, case_extra=None):
     center = _verts(steps)
     moved = None
+    again2d = False
+    if scheme.startswith("2d-again:"):
+        # queried (every table exists), then convert_to_2d() is called on the lanelet although it is two-dimensional already, and everything is checked
+        # again.  grow / skew boundaries have other lengths than the centre line
+        scheme, again2d = scheme.split(":")[1], True
     if scheme.startswith("moved:"):
         # the lanelet is constructed and QUERIED (distance table, one interpolation), then moved with translate_rotate, and everything is checked
         # against the moved geometry.  grow / skew boundaries are not symmetric about the centre line (the centre is not their midpoint)
@@ -143,6 +148,10 @@ def _check_interp(steps, scheme, res, case_extra=None):
             ll.convert_to_2d()
         else:
             ll = _mk_lanelet(center, left, right, 1, dtype=int if scheme == "int" else float)
+        if again2d:
+            case["scheme"] = "2d-again:" + scheme
+            _ = ll.distance; _ = ll.inner_distance; ll.interpolate_position(0.5 * float(ll.distance[-1]))
+            ll.convert_to_2d()
         if moved is not None:
             import numpy as np
             case["scheme"] = "moved:" + scheme
@@ -336,6 +345,46 @@ def _check_routes(ids, shape, res):
     res.outcomes["merged-predecessor-routes-ok"] += 1
 
 
+def _check_shared_bound(angle, res):
+    """two neighbouring lanelets constructed with ONE ndarray as their common boundary (the left bound of the lower, the right bound of the upper
+    lane), added to a network, queried, and the NETWORK moved: every lanelet's boundaries and the interpolated points are those of the moved polylines"""
+    import numpy as np
+    from commonroad.scenario.lanelet import Lanelet, LaneletNetwork
+    case = {"k": "shared-bound", "angle": angle}
+    res.evals += 1; res.transitions += 1; res.nontrivial += 1; res.states += 1
+    xs = [0.0, 3.0, 7.0, 12.0]
+    lo = [(x, 0.0) for x in xs]; mid = [(x, 3.0 + 0.25 * i) for i, x in enumerate(xs)]; hi = [(x, 6.5) for x in xs]
+    c1 = [((a[0] + b[0]) / 2, (a[1] + b[1]) / 2) for a, b in zip(lo, mid)]; c2 = [((a[0] + b[0]) / 2, (a[1] + b[1]) / 2) for a, b in zip(mid, hi)]
+    shared = np.array(mid, dtype=float)
+    t = (7.0, -3.0)
+    try:
+        net = LaneletNetwork()
+        net.add_lanelet(Lanelet(shared, np.array(c1, dtype=float), np.array(lo, dtype=float), 1, adjacent_left=2, adjacent_left_same_direction=True))
+        net.add_lanelet(Lanelet(np.array(hi, dtype=float), np.array(c2, dtype=float), shared, 2, adjacent_right=1, adjacent_right_same_direction=True))
+        for l_ in net.lanelets:
+            _ = l_.distance; l_.interpolate_position(1.0)
+        net.translate_rotate(np.array(t), angle)
+    except Exception as e:
+        res.violation(f"C20|shared-bound|raises:{type(e).__name__}", f"{case}: {e!r}", case)
+        return
+    co, si = math.cos(angle), math.sin(angle)
+    mv = lambda P: [(co * (x + t[0]) - si * (y + t[1]), si * (x + t[0]) + co * (y + t[1])) for x, y in P]
+    for lid, cen, left, right in ((1, c1, mid, lo), (2, c2, hi, mid)):
+        ll = net.find_lanelet_by_id(lid)
+        for nm, got, exp in (("center", ll.center_vertices, mv(cen)), ("left", ll.left_vertices, mv(left)), ("right", ll.right_vertices, mv(right))):
+            if got.shape != (len(exp), 2) or any(abs(a - b) > 1e-9 * (1 + abs(b)) for g, e in zip(got.tolist(), exp) for a, b in zip(g, e)):
+                res.violation(f"C20|shared-bound|{nm}-vertices-not-the-moved-polyline", f"{case}: lanelet {lid}: got {got.tolist()} expected {exp}", case)
+                return
+        L = float(ll.distance[-1])
+        for sval in (0.0, L / 3, L / 2, L):
+            exp, _ = _walker(mv(cen), mv(left), mv(right), min(sval, sum(math.dist(a, b) for a, b in zip(mv(cen), mv(cen)[1:]))))
+            c, r, l, idx = ll.interpolate_position(sval)
+            if not any(all(abs(a - b) <= 1e-7 * (1 + abs(b)) for P, Q in ((c, ec), (r, er), (l, el)) for a, b in zip(P, Q)) for ec, er, el, ei in exp):
+                res.violation("C20|shared-bound|interpolate|wrong-point", f"{case}: lanelet {lid} s={sval}: got c={list(c)} r={list(r)} l={list(l)}", case)
+                return
+    res.outcomes["shared-bound-ok"] += 1
+
+
 # ------------------------------------------------------------------ (c)
 
 class _Timeout(Exception):
@@ -472,7 +521,7 @@ def run_unit(unit, tier):
     if k == "interp":
         pl = _polylines(unit["ms"])[unit["lo"]:unit["hi"]]
         for steps in pl:
-            for scheme in OFFS + ["int", "3d", "setters", "3d-flattened", "far-small", "moved:const", "moved:grow", "moved:skew"]:
+            for scheme in OFFS + ["int", "3d", "setters", "3d-flattened", "far-small", "moved:const", "moved:grow", "moved:skew", "2d-again:grow", "2d-again:skew"]:
                 _check_interp(steps, scheme, res)
             res.sample({"k": "interp", "steps": steps}, 2)
     elif k == "merge":
@@ -491,6 +540,8 @@ def run_unit(unit, tier):
         for ids in ROUTE_IDS:
             for shape in ROUTE_SHAPES:
                 _check_routes(ids, shape, res)
+        for ang in (0.0, 0.4, -math.pi / 2):
+            _check_shared_bound(ang, res)
         res.sample({"k": "routes", "ids": ROUTE_IDS}, 1)
     elif k == "graphs":
         n = unit["n"]
@@ -509,6 +560,8 @@ def replay(case):
         _check_merge([tuple(s) for s in case["a"]], [tuple(s) for s in case["b"]], case["decl"], case["order"], res)
     elif case["k"] == "routes":
         _check_routes(tuple(case["ids"]), [tuple(x) for x in case["shape"]], res)
+    elif case["k"] == "shared-bound":
+        _check_shared_bound(case["angle"], res)
     else:
         _check_graph(case["n"], 0, [tuple(e) for e in case["edges"]], case["lens"], res)
     return [(s, d) for s, d, _ in res.violations]
